@@ -9,28 +9,75 @@ import (
 	"errors"
 	"fmt"
 	"io"
+	"strings"
 	"sync"
 
 	"filippo.io/sunlight/internal/ctlog"
 	"github.com/prometheus/client_golang/prometheus"
 )
 
-// memBackend is a plain in-memory object store (no faults except an optional refusal of the
-// "_roots.pem" upload, used to exercise the error path of SetRootsFromPEM).
+// memBackend is an in-memory object store. Faults are opt-in: an optional refusal of the
+// "_roots.pem" upload (error path of SetRootsFromPEM), and the fault modes of the issuer
+// scenario (issuerFaults in main.go): a transient failure of the first Upload of every issuer/
+// key, and honouring the request context the way a network backend does (a cancelled context
+// makes every operation return ctx.Err() without touching the store).
 type memBackend struct {
 	mu        sync.Mutex
 	objs      map[string][]byte
 	imm       map[string]bool
 	failRoots bool
+
+	failIssuerFirst bool                 // the first Upload of every issuer/ key fails and stores nothing
+	failedOnce      map[string]bool      // issuer/ keys whose first Upload was already refused
+	honourCtx       bool                 // Upload/Fetch/Discard return ctx.Err() when ctx is done
+	onIssuer        func(op, key string) // called (without the lock) at the start of Fetch/Upload of an issuer/ key
+	issuerEvents    []issuerEvent        // every Fetch/Upload of an issuer/ key, in order, with its outcome
+}
+
+// issuerEvent records one backend operation on an issuer/ key ("fetch" or "upload"): whether it
+// returned an error, and whether that error was an injected fault (transient failure, cancelled
+// context) rather than the regular answer of the store (not found, immutable object differs).
+type issuerEvent struct {
+	op, key  string
+	failed   bool
+	injected bool
 }
 
 func newMemBackend() *memBackend {
-	return &memBackend{objs: map[string][]byte{}, imm: map[string]bool{}}
+	return &memBackend{objs: map[string][]byte{}, imm: map[string]bool{}, failedOnce: map[string]bool{}}
 }
 
-func (b *memBackend) Upload(ctx context.Context, key string, data []byte, opts *ctlog.UploadOptions) error {
+// takeIssuerEvents returns and clears the operations on issuer/ keys recorded so far.
+func (b *memBackend) takeIssuerEvents() []issuerEvent {
 	b.mu.Lock()
 	defer b.mu.Unlock()
+	ev := b.issuerEvents
+	b.issuerEvents = nil
+	return ev
+}
+
+func (b *memBackend) Upload(ctx context.Context, key string, data []byte, opts *ctlog.UploadOptions) (err error) {
+	isIssuer := strings.HasPrefix(key, "issuer/")
+	if isIssuer && b.onIssuer != nil {
+		b.onIssuer("upload", key)
+	}
+	b.mu.Lock()
+	defer b.mu.Unlock()
+	injected := false
+	if isIssuer {
+		defer func() { b.issuerEvents = append(b.issuerEvents, issuerEvent{"upload", key, err != nil, injected}) }()
+	}
+	if b.honourCtx {
+		if err := ctx.Err(); err != nil {
+			injected = true
+			return err
+		}
+	}
+	if isIssuer && b.failIssuerFirst && !b.failedOnce[key] {
+		b.failedOnce[key] = true
+		injected = true
+		return errors.New("injected transient failure of the first upload of " + key)
+	}
 	if key == "_roots.pem" && b.failRoots {
 		return errors.New("injected failure of the roots upload")
 	}
@@ -42,9 +89,23 @@ func (b *memBackend) Upload(ctx context.Context, key string, data []byte, opts *
 	return nil
 }
 
-func (b *memBackend) Fetch(ctx context.Context, key string) ([]byte, error) {
+func (b *memBackend) Fetch(ctx context.Context, key string) (data []byte, err error) {
+	isIssuer := strings.HasPrefix(key, "issuer/")
+	if isIssuer && b.onIssuer != nil {
+		b.onIssuer("fetch", key)
+	}
 	b.mu.Lock()
 	defer b.mu.Unlock()
+	injected := false
+	if isIssuer {
+		defer func() { b.issuerEvents = append(b.issuerEvents, issuerEvent{"fetch", key, err != nil, injected}) }()
+	}
+	if b.honourCtx {
+		if err := ctx.Err(); err != nil {
+			injected = true
+			return nil, err
+		}
+	}
 	d, ok := b.objs[key]
 	if !ok {
 		return nil, fmt.Errorf("key %q not found", key)
@@ -55,6 +116,11 @@ func (b *memBackend) Fetch(ctx context.Context, key string) ([]byte, error) {
 func (b *memBackend) Discard(ctx context.Context, key string) error {
 	b.mu.Lock()
 	defer b.mu.Unlock()
+	if b.honourCtx {
+		if err := ctx.Err(); err != nil {
+			return err
+		}
+	}
 	delete(b.objs, key)
 	delete(b.imm, key)
 	return nil
